@@ -47,6 +47,9 @@ Qed.
 
 Ltac Zify.zify_post_hook ::= Z.div_mod_to_equations.
 
+Lemma move_eta (x : move) : x = mkMove (mfrom x) (mto x) (mpromote x).
+Proof. destruct x; reflexivity. Qed.
+
 Section Pawn.
 Variable zk : zkeys.
 Hypothesis EKZ : emptyKeysZero zk.
@@ -431,14 +434,17 @@ Proof.
   destruct w_cases as [Ew|Ew]; rewrite Ew in Ha |- *; cbv iota.
   - assert (B8 : bitAt t (-8) < 2 ^ 64) by (apply bitAt_lt; lia).
     assert (B16 : bitAt t (-16) < 2 ^ 64) by (apply bitAt_lt; lia).
-    destruct (sqY t =? 3); [destruct (_ =? 0)|]; repeat first [apply Hlor | apply ldiff_lt]; assumption.
+    assert (HM0 : N.ldiff (N.lor (bPawnAttacks t) (bitAt t (-8))) maskRow1 < 2 ^ 64) by (apply ldiff_lt, Hlor; assumption).
+    destruct (sqY t =? 3); [destruct (_ =? 0)|]; [apply Hlor; assumption | exact HM0 | exact HM0].
   - assert (B8 : bitAt t 8 < 2 ^ 64) by (apply bitAt_lt; lia).
-    destruct (sqY t =? 4) eqn:E4; [destruct (_ =? 0)|]; repeat first [apply Hlor | apply ldiff_lt]; try assumption.
+    assert (HM0 : N.ldiff (N.lor (wPawnAttacks t) (bitAt t 8)) maskRow8 < 2 ^ 64) by (apply ldiff_lt, Hlor; assumption).
+    destruct (sqY t =? 4) eqn:E4; [destruct (_ =? 0)|]; [|exact HM0 | exact HM0].
+    apply Hlor; [exact HM0|].
     apply N.eqb_eq in E4. unfold sqY in E4. apply bitAt_lt. pose proof (N.div_mod t 8 ltac:(lia)). pose proof (N.mod_lt t 8 ltac:(lia)). lia.
 Qed.
 
 Lemma m_eta : m = mkMove f t (mpromote m).
-Proof. unfold f, t. destruct m; reflexivity. Qed.
+Proof. unfold f, t. apply move_eta. Qed.
 
 Lemma genQ : genMovesNoUndoInfo q =
   revPromoBlock w q (revPawnBlock w q (revKingBlock w q (revKnightBlock w q (revBishopBlock w q (revRookBlock w q (revQueenBlock w q [])))))).
@@ -474,7 +480,7 @@ Proof.
   destruct (Z.eq_dec (epSquare q) (-1)) as [Eq|Eq]; [|apply (raw_doublepush_ep zk p m Hrev MF Eq)].
   unfold revMoveList. cbv zeta. rewrite Eq. change ((-1 =? -1)%Z) with true. cbv iota.
   rewrite genQ. unfold revPromoBlock. cbv zeta.
-  assert (Hne : mpromote m <> EMPTY) by (rewrite Hpr; destruct w, k; discriminate).
+  assert (Hne : mpromote m <> EMPTY) by (rewrite Hpr; destruct w_cases as [Ew'|Ew']; rewrite Ew'; destruct k; discriminate).
   assert (HQt : getPiece q t = mk_piece w k).
   { rewrite getQ_t. destruct (N.eqb_spec (mpromote m) EMPTY); [contradiction|]. exact Hpr. }
   pose proof (BOq zk EKZ p m Hrev MF) as BO. fold q in BO.
@@ -494,9 +500,10 @@ Proof.
   right. exists t. split; [|split].
   - rewrite N.land_spec, (BoardOK_color q w t BO), HQt.
     replace (t <? 64) with true by (symmetry; apply N.ltb_lt; exact Ht).
-    replace (has_color w (mk_piece w k)) with true by (destruct w, k; reflexivity). cbn [andb].
+    replace (has_color w (mk_piece w k)) with true by (destruct w_cases as [Ew'|Ew']; rewrite Ew'; destruct k; reflexivity). cbn [andb].
     destruct w_cases as [Ew|Ew]; rewrite Ew in Hlast |- *; [rewrite R8 | rewrite R1]; apply Z.eqb_eq; exact Hlast.
-  - rewrite HQt. destruct w, k; reflexivity.
+  - rewrite HQt. unfold promoKinds in Hk. cbn [In] in Hk.
+    destruct w_cases as [Ew'|Ew']; rewrite Ew'; destruct Hk as [<-|[<-|[<-|[<-|[]]]]]; reflexivity.
   - assert (Hmask : N.testbit (andn (if w then N.lor (bPawnAttacks t) (bitAt t (-8)) else N.lor (wPawnAttacks t) (bitAt t 8)) (occupiedBB q)) f = true).
     { unfold andn. rewrite N.ldiff_spec, occQ_f. cbn [negb]. rewrite andb_true_r.
       destruct w_cases as [Ew|Ew]; rewrite Ew in Hy, Hlast |- *; rewrite N.lor_spec; apply orb_true_iff.
@@ -543,7 +550,7 @@ Proof.
   { unfold pseudoLegalMoves, pseudoLegalMovesT. cbv zeta. apply (pawnBlock_app p Hwf'). right. exact Hin. }
   destruct (pseudo_move_good p Hwf' m Hps) as (_ & Hok & _).
   apply (pawnBlock_spec p m Hwf') in Hin.
-  destruct (pawnMove_of_spec zk p m Hrev Hin) as (HP & HM).
+  destruct (pawnMove_of_spec zk p m Hin) as (HP & HM).
   pose proof (pawn_moveFacts zk p m Hrev Hok HP HM) as MF.
   apply (complete_given_raw zk EKZ p m incl Hrev MF Hinc).
   apply (raw_pawn zk EKZ p m Hrev Hok HP HM).
